@@ -52,6 +52,14 @@ structure Sess where
   last : Nat := 0
   out : Array String := #[]
   dead : Bool := false
+  /-- the last parse call returned an error verdict: the object must not be continued (only reset) -/
+  stop : Bool := false
+
+/-- the verdict of a parse output `offs,[n,]verdict`: an error = an `ErrHdr…` name other than the five "going on" ones -/
+def isErrOut (out : String) : Bool :=
+  let v := (out.splitOn ",").getLast!
+  v.startsWith "ErrHdr" &&
+    !(v == "ErrHdrOk" || v == "ErrHdrMoreBytes" || v == "ErrHdrMoreValues" || v == "ErrHdrEOH" || v == "ErrHdrEmpty")
 
 def mkArr {α : Type} (n : Nat) (z : α) : Array α := Array.replicate n z
 
@@ -216,13 +224,15 @@ def step (s : Sess) (op : List String) : Sess :=
   match op with
   | ["B", h] => { s with buf := unhex h }
   | ["P", len, offs, flags] =>
+    -- continuing an object after an error verdict (without Reset / Init) is outside every property's domain
+    if offs == "c" && s.stop then { s with out := s.out.push "skipped-after-error" } else
     let b := s.buf.extract 0 (natOf len)
     let o := if offs == "c" then s.last else natOf offs
     let (out, obj, n, p) := doParse s.obj b o (natOf flags)
     if p then { s with out := s.out.push "PANIC", dead := true }
-    else { s with out := s.out.push out, obj := obj, last := n }
-  | ["R"] => { s with obj := doReset s.obj }
-  | ["I"] => { s with obj := doInit s.obj s.buf }
+    else { s with out := s.out.push out, obj := obj, last := n, stop := isErrOut out }
+  | ["R"] => { s with obj := doReset s.obj, stop := false }
+  | ["I"] => { s with obj := doInit s.obj s.buf, stop := false }
   | ["O"] => { s with out := s.out.push (doObs s.obj) }
   | ["G"] =>
     match s.obj with
